@@ -15,11 +15,12 @@ import (
 // oracles, then (modexp, the only one whose work is not linear in its input) single-threaded with an
 // allocation bound.
 func (k *checker) precompiles(use []evmkit.Epoch, thorough bool) {
-	inputs := precompileInputs(thorough)
-	k.run.Set("precompile_inputs", len(inputs))
+	generic, modexp := precompileInputs(thorough)
+	inputs := append(append([][]byte{}, generic...), modexp...)
+	k.run.Set("precompile_inputs", map[string]int{"every_address": len(generic), "modexp_only": len(modexp)})
 	gases := []uint64{0, 3000, 100000}
 	if thorough {
-		gases = []uint64{0, 1, 59, 60, 100, 2999, 3000, 21000, 1000000, evmkit.GasLimit}
+		gases = []uint64{0, 59, 60, 2999, 3000, 21000, 1000000, evmkit.GasLimit}
 	}
 	type pc struct {
 		addr byte
@@ -28,6 +29,9 @@ func (k *checker) precompiles(use []evmkit.Epoch, thorough bool) {
 	var cases []pc
 	for a := byte(1); a <= 9; a++ {
 		for i := range inputs {
+			if i >= len(generic) && a != 5 {
+				break
+			}
 			cases = append(cases, pc{a, i})
 		}
 	}
@@ -48,7 +52,7 @@ func (k *checker) precompiles(use []evmkit.Epoch, thorough bool) {
 		}
 		w := k.worlds[ep.Name]
 		for i, in := range inputs {
-			if i%16 == 0 && k.expired() {
+			if k.stop(i) {
 				return
 			}
 			c := Case{Scenario: "precompile", Mode: ModeCall, Input: in, Gas: g, Ep: ep, To: common.BytesToAddress([]byte{5}), Code: []byte{0}}
